@@ -41,6 +41,7 @@ def main() -> None:
                     "category": "other",
                     "text": "Static obligation checker written for this repository (no execution of rp2). decides: "
                     + meta["explanation"]
+                    + (" Premises restated from other properties' rules (each a necessary condition here too): " + meta["restated"] + "." if meta.get("restated") else "")
                     + " does not decide: "
                     + meta["not_decided"],
                     "design_ref": f"DESIGN.md section 3, {pid}",
